@@ -204,3 +204,27 @@ PROPS["C16"] = dict(
         seeded("queue", "unit", "^TestC16Queue$", 400 if tier == "quick" else 6000, 8 if tier == "quick" else 16, timeout=1800),
     ] + ([seeded("queue-race", "unit", "^TestC16Queue$", 1500, 8, race=True, timeout=3000)] if tier == "thorough" else []),
 )
+
+PROPS["C04"] = dict(
+    title="RTSP framing round-trips for any chunking and any byte carrier",
+    pkg="wire",
+    rule=("(roundtrip) rapid sequences of 1..20 requests (ten standard methods, '*' or rtsp/rtsps URLs with IPv4/IPv6/zone/hostname, port, "
+          "escaped and sub-delim path segments, queries), responses (status 0..999, empty or <=254-byte messages), interleaved frames "
+          "(0..65535 bytes, channels 0..255), up to 254 header entries with multi-values, values up to the 2047-byte limit, bodies "
+          "0..128 KiB, written through conn.Write* and read back through conn.Read over a drawn chunker (1-byte reads, tiny, random, "
+          "huge) on three carriers: direct, HTTP tunnel (one padded base64 block per write, concatenated, decoded by the server tunnel "
+          "conn), WebSocket (the stream cut into binary messages through the library writer, read through the library reader over a real "
+          "gorilla connection); every field compared with the generator's value. (limit) each documented limit exactly met (accepted) and "
+          "exceeded by 1..300000 (refused with an error, allocation <= 2x element + 8 MiB). (bytes) arbitrary and mutated bytes, plain and "
+          "base64: no panic, nothing beyond the limits accepted. Non-trivial: >=3 elements of >=2 kinds with a chunk size < 64; limit "
+          "cases within 1 of the limit; byte inputs > 16 bytes. Distinct by case hash."),
+    assumptions=[
+        "URLs are written in the form the URL printer emits (re-encoding is C20's concern); header keys are canonical; values carry no leading space",
+        "allocation is process-wide TotalAlloc, minimum over up to 4 runs",
+    ],
+    jobs=lambda tier: [
+        seeded("roundtrip", "wire", "^TestC04$", 200 if tier == "quick" else 3000, 8 if tier == "quick" else 16, timeout=3000),
+        seeded("limits", "wire", "^TestC04Limits$", 1500 if tier == "quick" else 20000, 1 if tier == "quick" else 4, timeout=1800),
+        seeded("bytes", "wire", "^TestC04Bytes$", 3000 if tier == "quick" else 50000, 1 if tier == "quick" else 4, timeout=1800),
+    ] + ([seeded("splitsweep", "wire", "^TestC04SplitSweep$", 1, 1, timeout=3000)] if tier == "thorough" else []),
+)
